@@ -17,7 +17,12 @@ leg B  class vs `PDE(eq.expression(s))` (1e-5: six printed digits) for ALL class
 leg C  generic `PDE` right-hand sides and `ReactionDiffusionPDE`: bc_ops, explicit t, consts
        (numbers and fields), coordinate dependence, dot/inner/integral, nested operators,
        multi-field collections (scalar and vector fields): numpy vs numba vs model
-       (`PdeVerif.PDEs.rhsValuePde`, which also does the bc_ops look-up)."""
+       (`PdeVerif.PDEs.rhsValuePde`, which also does the bc_ops look-up).
+time   (gap round) every model evaluation of legs A, B, C goes through the TIME-PARAMETERISED definitions of
+       `Model/PDEsTime.lean` (`*RateAt`, `rhsValueAt`, `rhsValuePdeAt`): one request per case carries both times and the
+       operators / tables measured at each; the model builds time-dependent operators (`sampled`), selects the instance of
+       the time it evaluates at and binds the symbol `t` itself.  Sub-leg `values-operator`: KPZ / K-S rate with py-pde's
+       own gradient_squared of the state as a {"values"} operator (`constOp`) = numpy rate = rate with `sumSquares`."""
 import math
 import os
 import re
@@ -38,7 +43,16 @@ REQUIRED_THEOREMS = [
     "rhsValue_def", "ks_split_rate_eq_expression", "swiftHohenberg_split_rate_eq_expression", "ks_grouped_vs_split_text",
     "rhsValueF_congr", "rhsValueF_operator_free", "rhsValueF_operator", "rhsValuePde_operator",
     "bcIndex_selects", "bcIndex_first", "bcIndex_default", "pdeOp_eq", "sumSquares_eq_sum",
+    # Props/C10b.lean (explicit time, all right-hand sides compositionally, sumSquares / {"values"})
+    "class_rate_eq_expression_at", "rhsValueAt_eq_frozen", "rhsValuePdeAt_def", "rhsValuePdeAt_time_symbol",
+    "rhsValuePdeAt_operator", "rhsValuePdeAt_operator_free", "rhsValuePdeAt_laplace_plus_time_term",
+    "rhsValueF_compositional", "rhsValuePdeAt_compositional", "evalWithCalls_no_calls", "values_operator_sound",
+    "values_operator_sound_ks", "rhsValueF_constOp", "sumSquares_nonneg", "sumSquares_eq_zero_iff",
+    "sumSquares_homogeneous", "sampled_head", "sampled_second", "rhsValueF_env_congr", "rhsValueF_unused_field",
+    "grouped_text_vs_split_class_gap_at", "diffusionRateAt_time_dependence", "eval_env_congr",
+    "values_operator_sound_inner", "values_operator_not_sound_outer", "sampled_zip_getElem", "diffusionRateAt_sampled",
 ]
+EXTRA_PROP_FILES = ["C10b"]
 RULE = ("cases = (equation class or generic right-hand-side program, parameters incl. the expr_prod branch values "
         "0/1/-1 and 7-digit decimals, grid out of 1-d/2-d Cartesian (periodic or not), polar, spherical, cylindrical, "
         "one independently drawn boundary condition PER OPERATOR out of value/derivative/mixed/curvature/"
@@ -563,6 +577,8 @@ def _run_class_case(case):
                     # gradient_squared is not affine: it is the sum of the squares of the (affine, measured)
                     # components of the gradient; the dedicated operator's own output is NOT fed to the model
                     ops[f"{role}@{tag}"] = _gradient_comps(grid, bc, t, n)
+                    # ... but it is recorded for the state itself: the {"values"} operator of the model
+                    out.setdefault("gradsq_values", {})[tag] = state.gradient_squared(bc=bc, args={"t": t}).data.ravel().tolist()
         out["ops"] = ops
     return out
 
@@ -854,8 +870,15 @@ def run(ctx):
             continue
         sl = {}
         if c["leg"] in ("A", "B"):
-            for tag in ("t", "t2"):
-                sl["rate_" + tag] = batch.add("c10.rate", rate_request(c, r["ops"], tag))
+            # ONE request for both times: the model builds time-dependent operators from the two measurements and
+            # evaluates the time-parameterised class rate (`*RateAt`) at each time
+            sl["rate_T"] = batch.add("c10.rate_t", timed(c, "Q", q, [rate_request(c, r["ops"], tag) for tag in TAGS]))
+            if any(role == "gradsq" for role in OP_ROLES[c["cls"]]):
+                # the {"values"} operator: gradient_squared replaced by the result py-pde's OWN operator gave for
+                # the state (`constOp`, theorem values_operator_sound: the class rate must not change)
+                sl["ratev_T"] = batch.add("c10.rate_t", timed(c, "Q", q, [
+                    rate_request(c, dict(r["ops"], **{f"gradsq@{tag}": {"values": r["gradsq_values"][tag]}}), tag)
+                    for tag in TAGS]))
             if c["leg"] == "B":
                 sl["template"] = batch.add("c10.template", template_request(c, r))
                 sl.update(text_requests(batch, c, r))
@@ -863,7 +886,7 @@ def run(ctx):
             sl.update(generic_requests(batch, c, r))
         slots[c["id"]] = sl
     t_lean = time.time()
-    answers = batch.run()
+    answers = expand_timed(batch.run(), slots)
     ctx.extra["timing"] = {"S_pool_s": round(t_S, 1), "J_pool_s": round(t_J, 1), "lean_s": round(time.time() - t_lean, 1),
                            "S_case_s_max": round(max([r.get("seconds", 0) for r in S.values()] + [0]), 1),
                            "J_case_s_max": round(max([r.get("seconds", 0) for r in J.values()] + [0]), 1),
@@ -876,6 +899,30 @@ def run(ctx):
     # the rate ARRAYS of the real code compared with the model)
     ctx.extra["disagreements_checked"] = VALUES_COMPARED[0]
     ctx.extra["jit_cases"] = len(jcases)
+
+
+TAGS = ("t", "t2")
+
+
+def timed(c, mode, enc, requests, **extra):
+    """one request for all times of a case (`c10.rate_t` / `c10.text_t` / `c10.rhs_t`)"""
+    return dict({"mode": mode, "times": [enc(c[tag]) for tag in TAGS], "requests": requests}, **extra)
+
+
+def expand_timed(answers, slots):
+    """a slot `<name>_T` (one answer holding a list with one entry per time) becomes the slots `<name>_t`, `<name>_t2`
+    that `judge` reads"""
+    answers = list(answers)
+    for sl in slots.values():
+        for key in [k for k in sl if k.endswith("_T")]:
+            st, val = answers[sl[key]]
+            for j, tag in enumerate(TAGS):
+                if st == "ok" and not (isinstance(val, list) and len(val) == len(TAGS)):
+                    answers.append(("err", f"timed answer is not a list of {len(TAGS)} entries: {str(val)[:200]}"))
+                else:
+                    answers.append((st, val[j]) if st == "ok" else (st, val))
+                sl[key[:-1] + tag] = len(answers) - 1
+    return answers
 
 
 def text_form(ast):
@@ -896,13 +943,16 @@ def text_requests(batch, c, r):
     asts = read_class_texts(c["cls"], r["texts"])
     sl["_asts"] = asts
     exprs = [[v, a] for v, a in asts.items()]
-    for tag in ("t", "t2"):
+    reqs = []
+    for tag in TAGS:
         lap = r["ops"][f"{'lap_c' if c['cls'] == 'CahnHilliardPDE' else 'lap_bc'}@{tag}"]
         req = {"mode": "Q", "n": n_cells(c["grid"]), "exprs": exprs,
                "fields": [[f, [q(x) for x in v]] for f, v in c["state"].items()], "lap": enc_op(lap, q)}
         if f"gradsq@{tag}" in r["ops"]:
             req["gradsq"] = enc_op(r["ops"][f"gradsq@{tag}"], q)
-        sl["text_" + tag] = batch.add("c10.text", req)
+        reqs.append(req)
+    # `rhsValueAt`: operators of time t, symbol t bound to t, at both times
+    sl["text_T"] = batch.add("c10.text_t", timed(c, "Q", q, reqs))
     return sl
 
 
@@ -933,11 +983,13 @@ def generic_requests(batch, c, r):
     for ax, v in r["coords"].items():
         fields.append([ax, [enc(x) for x in v]])
     bc_keys = [key.split(":") for key in c["bc_ops"]]
-    for tag in ("t", "t2"):
-        scalars = [[k, enc(v)] for k, v in c["consts"].items()] + [["t", enc(c[tag])]]
+    reqs = []
+    for tag in TAGS:
         table = [[name, bcname, [enc_op(o, enc) for o in insts]] for name, (bcname, insts) in r["ops"][tag].items()]
-        sl["rhs_" + tag] = batch.add("c10.rhs", {"mode": mode, "n": n, "exprs": exprs, "fields": fields, "scalars": scalars,
-                                                 "bc_keys": bc_keys, "table": table})
+        reqs.append({"mode": mode, "n": n, "exprs": exprs, "fields": fields, "bc_keys": bc_keys, "table": table})
+    # `rhsValuePdeAt`: the table is a function of the time (the two measured tables), the MODEL binds the symbol `t`
+    # to the time at which it evaluates; the constants are passed without the time
+    sl["rhs_T"] = batch.add("c10.rhs_t", timed(c, mode, enc, reqs, consts=[[k, enc(v)] for k, v in c["consts"].items()]))
     sl["_mode"] = mode
     sl["_names"] = [nm for nm, _e, _v in exprs]
     return sl
@@ -1114,6 +1166,24 @@ def judge(ctx, c, rs, rj, sl, answers):
                         ctx.disagree(leg, dict(case, time=c[t], exec_mode=tag, route=route.strip("_")), model[t], r[route + t],
                                      f"{route.strip('_')} rate differs from the documented composition of the operators "
                                      f"(max abs diff {worst:.3g})")
+        # the {"values"} operator (`constOp`): the class rate with py-pde's own gradient_squared of the state in place
+        # of the model's sum of squares must be the rate of the real code as well (values_operator_sound)
+        for t in TAGS:
+            if "ratev_" + t not in sl:
+                continue
+            st, val = answers[sl["ratev_" + t]]
+            if st != "ok":
+                ctx.disagree(leg, case, val, None, "model driver error ({values} operator)")
+                return
+            mv = [decode_vec("Q", val[f]) for f in fields]
+            ctx.impl_traces += 1
+            ctx.hist("values_operator", c["cls"])
+            for ref, what in ((rs["numpy_" + t], "numpy rate"), (model[t], "model rate with sumSquares")):
+                ok, worst = close_arr(mv, ref, TOL, scale_of(mv, ref))
+                if not ok:
+                    ctx.disagree(leg, dict(case, time=c[t], exec_mode="S", route="values-operator"), mv, ref,
+                                 f"class rate with the measured gradient_squared as a {{values}} operator differs from the "
+                                 f"{what} (max abs diff {worst:.3g})")
         offsets = [any(abs(x) > 1e-12 for x in rs["ops"][k]["b"]) for k in rs["ops"] if "b" in rs["ops"][k]]
         bcs = [b for b in c["bcs"].values() if b is not None]
         distinct_bcs = len(bcs) < 2 or bcs[0] != bcs[1] or leg == "B"
